@@ -237,7 +237,7 @@ def make_admonition(eng, nval, alphabet):
     title_kind = new_int(eng, "title_kind", 0, 4)  # 0 none, 1 <p class=title>, 2 <div class="admonition-title">, 3 <p class="subtitle">, 4 <p class="x title">
     on = new_bool(eng, "html_admonition")
     img_other = new_bool(eng, "html_image_other")
-    body_kind = new_int(eng, "body_kind", 0, 3)
+    body_kind = new_int(eng, "body_kind", 0, 4)
     state = {}
     eng.witness_fn = lambda m: {"cls": eng.eval_model(m, state.get("cls", "")), "name": eng.eval_model(m, name_v) if eng.eval_model(m, has_name) else None,
                                "title_kind": eng.eval_model(m, title_kind), "html_admonition": eng.eval_model(m, on), "body_kind": eng.eval_model(m, body_kind), "other_ext": eng.eval_model(m, img_other)}
@@ -268,6 +268,9 @@ def make_admonition(eng, nval, alphabet):
             # a paragraph whose inline elements are separated by white space only: the spaces are part of the Markdown
             ev = ev[:-4] + [("start", "p", []), ("start", "kbd", []), ("data", "Ctrl"), ("end", "kbd"), ("data", " "), ("start", "kbd", []), ("data", "C"), ("end", "kbd"), ("data", "  "), ("entityref", "amp"),
                             ("data", " "), ("comment", "c"), ("end", "p"), ("data", "\n")]
+        if bk == 4:
+            # an element whose attribute value contains a double quote (written title='say "hi"'): still one element when the body is parsed again
+            ev += [("start", "span", [("title", 'say "hi"')]), ("data", "x"), ("end", "span")]
         ev += [("end", "div")]
         tree = apply_events(ph, ev)
         h2n.tokenize_html = lambda text: tree
@@ -304,7 +307,12 @@ def make_admonition(eng, nval, alphabet):
         if bk == 3:
             exp_body = exp_body[: -len("para one\n\n")] + "<kbd>Ctrl</kbd> <kbd>C</kbd>  &amp; <!--c-->\n\n"
         bt = bodytext if isinstance(bodytext, str) else bodytext.concretize()
-        eng.require(bt.strip() == exp_body.strip(), "admonition-body", "%r vs %r" % (bt, exp_body))
+        if bk == 4:
+            exp_body += "<span title='say \"hi\"'>x</span>"
+            ok_forms = [exp_body.strip(), exp_body.strip().replace("'say \"hi\"'", '"say &quot;hi&quot;"'), exp_body.strip().replace("'say \"hi\"'", '"say &#34;hi&#34;"')]
+            eng.require(bt.strip() in ok_forms, "admonition-body", "%r is none of %r" % (bt, ok_forms))
+        else:
+            eng.require(bt.strip() == exp_body.strip(), "admonition-body", "%r vs %r" % (bt, exp_body))
         eng.note("directive")
         return "adm"
 
@@ -674,6 +682,8 @@ def _replay_adm(real, rph, ropts, w):
     if bk == 3:
         ev = ev[:-4] + [("start", "p", []), ("start", "kbd", []), ("data", "Ctrl"), ("end", "kbd"), ("data", " "), ("start", "kbd", []), ("data", "C"), ("end", "kbd"), ("data", "  "), ("entityref", "amp"),
                         ("data", " "), ("comment", "c"), ("end", "p"), ("data", "\n")]
+    if bk == 4:
+        ev += [("start", "span", [("title", 'say "hi"')]), ("data", "x"), ("end", "span")]
     ev += [("end", "div")]
     tree = apply_events(rph, ev)
     real.tokenize_html = lambda text: tree
@@ -699,6 +709,10 @@ def _replay_adm(real, rph, ropts, w):
         exp["name"] = w["name"]
     if got != exp:
         return ("C17/admonition-options:%s" % _cls(attrs), "div attributes %r arrive as options %r (option text %r)" % (exp, got, content))
+    if bk == 4:
+        pre = ("My *T*\n\n" if tk == 3 else "") + "para one\n\n"
+        forms = [pre + "<span title=%s>x</span>" % q for q in ("'say \"hi\"'", '"say &quot;hi&quot;"', '"say &#34;hi&#34;"')]
+        return None if body.strip() in [f.strip() for f in forms] else ("C17/admonition-body", "body %r: the attribute value 'say \"hi\"' is not quoted so that it reads back (expected one of %r)" % (body, forms))
     exp_body = ("My *T*\n\n" if tk == 3 else "") + ("para one\n\n" if bk in (1, 2) else "") + ("<b>bold</b>" if bk == 2 else "") + ("<kbd>Ctrl</kbd> <kbd>C</kbd>  &amp; <!--c-->\n\n" if bk == 3 else "")
     if body.strip() != exp_body.strip():
         return ("C17/admonition-body", "body %r expected %r" % (body, exp_body))
